@@ -19,7 +19,8 @@ TARGETS = ('mysql', 'postgresql', 'postgres', 'sqlite', 'mssql', 'oracle', 'Snow
 RULE = ('cases = (parser dialect, text) accepted by parse_sql, each judged against all 7 renderer dialect names x '
         '{get_string, get_exec_params} x {fallback on, off}: every corpus statement, a fixed list of targeted unsupported '
         'shapes (unknown / parameterised cast and column types, multi-argument aggregates, tuples under every operator, '
-        '3-part names, parameters, LATEST, native queries, multi-part aliases, DROP of several tables, CREATE TABLE forms), '
+        '3-part names, parameters, LATEST, native queries, multi-part aliases, DROP of several tables, CREATE TABLE forms), a function '
+        'catalogue (every name SQLAlchemy registers a function class for + common SQL functions x 16 argument-list shapes incl. FROM arguments), '
         'every expression fragment in every clause position of SELECT/INSERT/UPDATE/DELETE/CREATE frames and every table '
         'fragment in every table position (exhaustive single splice), plus random cases: grammar derivations (3 dialects, '
         'stratified towards the statement kinds the renderer translates), token mutations of corpus statements, fragments '
@@ -30,10 +31,10 @@ ASSUMPTIONS = ['"tree the parsers can produce" = the statement returned by parse
                'a tree whose own str() raises (a C01 defect) is excluded when only the fallback needs that string',
                'the SQLAlchemy rendering is taken as whatever the no-fallback call returns (its meaning is C06/C07)']
 FLOORS = {'quick': {'__nontrivial__': 3000, 'fallback-exercised': 1100, 'rendered': 2800, 'origin:splice': 500, 'origin:splice-all': 2000,
-                    'origin:grammar': 800, 'origin:corpus-splice': 80, 'stmt:Select': 2800, 'stmt:Insert': 300, 'stmt:Update': 300,
+                    'origin:grammar': 800, 'origin:corpus-splice': 80, 'origin:funcs': 1200, 'stmt:Select': 2800, 'stmt:Insert': 300, 'stmt:Update': 300,
                     'stmt:Delete': 200, 'stmt:CreateTable': 200, 'stmt:DropTables': 90, 'stmt:Union': 180},
           'thorough': {'__nontrivial__': 12000, 'fallback-exercised': 5000, 'rendered': 10000, 'origin:splice': 5000,
-                       'origin:splice-all': 2000, 'origin:grammar': 8000, 'origin:corpus-splice': 800, 'stmt:Select': 10000,
+                       'origin:splice-all': 2000, 'origin:grammar': 8000, 'origin:corpus-splice': 800, 'origin:funcs': 1200, 'stmt:Select': 10000,
                        'stmt:Insert': 1000, 'stmt:Update': 1000, 'stmt:Delete': 600, 'stmt:CreateTable': 600, 'stmt:DropTables': 270,
                        'stmt:Union': 500}}
 N = {'quick': 600, 'thorough': 7000}
@@ -492,8 +493,26 @@ def type_catalogue():
     return out
 
 
+FUNC_ARGS = ['()', '(*)', '(a)', '(a, b)', '(a, b, c)', '(1, 2, 3, 4)', '(distinct a)', '(distinct a, b)', '(a from b)', '(a from 1)',
+             "('x' from 2)", "('x')", '((1, 2))', '(null)', '(a) over (order by b)', '(a from b) over (partition by a)']
+FUNC_EXTRA = ['substring', 'substr', 'trim', 'position', 'date_trunc', 'if', 'ifnull', 'nullif', 'length', 'lower', 'upper', 'round', 'abs',
+              'group_concat', 'json_extract', 'left', 'right', 'replace', 'avg', 'date', 'year', 'convert', 'overlay', 'func', 'select',
+              'over', 'filter', 'within_group', 'label', 'type', 'name', 'self_group', 'alias', 'column', 'columns', 'c', 'execute']
+
+
+def function_catalogue():
+    """every function name SQLAlchemy registers a class for (fixed arity, special constructors: the renderer resolves names through
+    sa.func) plus common SQL functions and attribute names of sa.func objects, each with every argument-list shape of the grammar"""
+    from sqlalchemy.sql import functions as saf
+    names = sorted(set(saf._registry.get('_default', {})) | set(FUNC_EXTRA))
+    return [f'{n}{a}' for n in names for a in FUNC_ARGS]
+
+
 def fixed_cases():
     out = []
+    for d in corpus.DIALECTS:
+        for f in function_catalogue():
+            out.append({'dialect': d, 'sql': f'select {f} from t', 'origin': 'funcs'})
     for x in corpus.accepted():
         out.append({'dialect': x['dialect'], 'sql': x['sql'], 'origin': 'corpus'})
     shapes = list(SHAPES)
